@@ -15,6 +15,9 @@
 #include "nmtools/array/view/sum.hpp"
 #include "nmtools/array/view/ufuncs/add.hpp"
 #include "nmtools/array/view/ufuncs/invert.hpp"
+#ifndef KINDSEL
+#define KINDSEL 0   // one translation unit per operand kind: 1 H, 2 F, 3 C, 4 B, 5 L (0: helpers only)
+#endif
 static constexpr size_t NA = (size_t)-1;
 template <typename T> static inline size_t tv(const T& v){ if constexpr (meta::is_fail_v<T>) return NA; else return (size_t)v; }
 template <typename V> static inline void static_traits(size_t* t){
@@ -61,9 +64,41 @@ static inline auto sl2(const int* p){ return nmtools_tuple{p[0],p[1]}; }
 using a2_t = hyb_t<unsigned,16,2>;
 #define KH(NAME, ...)  KERNEL int K(k_tr_##NAME##_H)(SIGT){ a2_t a; if (!mk2(a,shape,data)) return -1; return stat_vs_run(__VA_ARGS__, t, rt); }
 #define KHU(NAME, INNER, ...) KERNEL int K(k_tr_##NAME##_H)(SIGT){ a2_t a; if (!mk2(a,shape,data)) return -1; UNWRAP_INNER(INNER) return stat_vs_run(__VA_ARGS__, t, rt); }
+#if KINDSEL == 1
 PROGRAMS(KH) PROGRAMS_U(KHU)
+#endif
 // F: fixed shape (2,3) std::array of std::array; C: raw C array
 using f23_t = std::array<std::array<unsigned,3>,2>;
 #define KF(NAME, ...)  KERNEL int K(k_tr_##NAME##_F)(SIGT){ f23_t a; fill_n(&a[0][0], data, 6); return stat_vs_run(__VA_ARGS__, t, rt); }
 #define KFU(NAME, INNER, ...) KERNEL int K(k_tr_##NAME##_F)(SIGT){ f23_t a; fill_n(&a[0][0], data, 6); UNWRAP_INNER(INNER) return stat_vs_run(__VA_ARGS__, t, rt); }
+#if KINDSEL == 2
 PROGRAMS(KF) PROGRAMS_U(KFU)
+#endif
+using c23_t = unsigned[2][3];
+#define KC(NAME, ...)  KERNEL int K(k_tr_##NAME##_C)(SIGT){ c23_t a; fill_n(&a[0][0], data, 6); return stat_vs_run(__VA_ARGS__, t, rt); }
+#define KCU(NAME, INNER, ...) KERNEL int K(k_tr_##NAME##_C)(SIGT){ c23_t a; fill_n(&a[0][0], data, 6); UNWRAP_INNER(INNER) return stat_vs_run(__VA_ARGS__, t, rt); }
+#if KINDSEL == 3
+PROGRAMS(KC) PROGRAMS_U(KCU)
+#endif
+// L: clipped shape, every extent <= 4 (programs that do not compile for this kind - transpose(None), sum - are left out; see props/C11.py)
+using l44_t = na::ndarray_t<na::static_vector<unsigned,16>, nmtools_array<nm::clipped_size_t<4>,2>>;
+#define PROGRAMS_L(X) \
+  X(transpose, TRANSPOSE(a, p)) X(reshape_b, view::reshape(a, mk_sv<int,4>(p+1, (size_t)p[0]))) X(reshape, RESHAPE(a, p)) \
+  X(flatten, FLATTEN(a, p)) X(flip, FLIP(a, p)) X(slice, SLICE(a, p)) X(tile, TILE(a, p)) X(pad, PAD(a, p)) X(invert, INVERT(a, p)) X(add_scalar, ADDS(a, p)) \
+  X(flip_transpose, FLIP(TRANSPOSE(a, p), p + 2)) X(reshape_flip, RESHAPE(FLIP(a, p), p + 1)) X(sum_transpose, SUM(TRANSPOSE(a, p), p + 2)) \
+  X(add_scalar_transpose, ADDS(TRANSPOSE(a, p), p + 2)) X(transpose_add_scalar, TRANSPOSE(ADDS(a, p), p + 1)) X(flatten_pad, FLATTEN(PAD(a, p), p)) \
+  X(invert_flip, INVERT(FLIP(a, p), p)) X(slice_transpose, SLICE(TRANSPOSE(a, p), p + 2)) X(transpose_slice, TRANSPOSE(SLICE(a, p), p + 5)) \
+  X(transpose_flip_slice, TRANSPOSE(FLIP(SLICE(a, p), p + 5), p + 6))
+#define MKL l44_t a; if (!a.resize(shape[0], shape[1])) return -1; fill(a, data);
+#define KL(NAME, ...)  KERNEL int K(k_tr_##NAME##_L)(SIGT){ MKL return stat_vs_run(__VA_ARGS__, t, rt); }
+#if KINDSEL == 5
+PROGRAMS_L(KL)
+#endif
+// B: bounded dim (run-time dim 1..3); argument-free programs (axis arguments are p[0], passed as 0 by the harness)
+using b3_t = na::ndarray_t<na::static_vector<unsigned,16>, na::static_vector<size_t,3>>;
+#define PROGRAMS_B(X) X(transpose_none, view::transpose(a)) X(flatten, FLATTEN(a, p)) X(invert, INVERT(a, p)) X(add_scalar, ADDS(a, p)) X(sum, SUM(a, p)) X(flip, FLIP(a, p))
+#define MKB b3_t a; if (!a.resize(mk_sv<size_t,3>(shape, dim))) return -1; fill(a, data);
+#define KB(NAME, ...)  KERNEL int K(k_tr_##NAME##_B)(SIGT){ MKB return stat_vs_run(__VA_ARGS__, t, rt); }
+#if KINDSEL == 4
+PROGRAMS_B(KB)
+#endif
